@@ -2350,11 +2350,21 @@ func (c *codegen) convertBuiltin(expr *ast.CallExpr) {
 				for range 4 { // leave x on stack
 					emit.Opcodes(c.prog.BinWriter, opcode.DROP)
 				}
+			} else if elems := expr.Args[1:]; len(elems) == 1 {
+				emit.Opcodes(c.prog.BinWriter, opcode.DUP)
+				ast.Walk(c, elems[0])
+				emit.Opcodes(c.prog.BinWriter, opcode.APPEND)
 			} else {
-				for _, e := range expr.Args[1:] {
-					emit.Opcodes(c.prog.BinWriter, opcode.DUP)
+				// All the arguments are evaluated before the first element is
+				// appended: an argument can refer to the slice itself, like
+				// in append(s, 1, len(s)).
+				for _, e := range elems {
 					ast.Walk(c, e)
-					emit.Opcodes(c.prog.BinWriter, opcode.APPEND)
+				}
+				c.emitReverse(len(elems)) // x en .. e1
+				for i := len(elems); i > 0; i-- {
+					emit.Int(c.prog.BinWriter, int64(i))
+					emit.Opcodes(c.prog.BinWriter, opcode.PICK, opcode.SWAP, opcode.APPEND)
 				}
 			}
 		}
